@@ -2,7 +2,7 @@
 # usage: verify_seed.sh <seed-dir> : confirms a seeded change in a scratch worktree of /repo
 # (compiles, baseline tests still pass, demo fails with the change and passes without). Prints a verdict line.
 set -u
-SD="$1"; ID="$(basename "$SD")"; WT="/tmp/vs-$ID"
+SD="$(cd "$1" && pwd)"; ID="$(basename "$SD")"; WT="/tmp/vs-$ID"
 BASE="$(python3 -c "import json;print('\n'.join(t.split('::',1)[1].split('::')[-1] for t in json.load(open('/root/.vp/BASELINE.json'))['stable_pass']))")"
 git -C /repo worktree add -q --detach "$WT" HEAD || exit 2
 cd "$WT"
